@@ -31,7 +31,8 @@ def plan(tier):
     return {"cases": 1500 if tier == "quick" else 30000, "shards": 16, "case_timeout": 60, "shard_timeout": 3000,
             "min_nontrivial": 100,
             "min_counters": {"suffix_assertions": 3000, "prefix_instances_reclaimed": 5000,
-                             "relations_compared": 5000}}
+                             "relations_compared": 5000, "suffix:stamp_append": 100 if tier == "quick" else 2000,
+                             "dead_copies_of_live_instances": 150 if tier == "quick" else 3000}}
 
 
 def setup(ctx):
@@ -40,7 +41,7 @@ def setup(ctx):
 
 
 KINDS = ["works_for", "head_of", "member_of_append", "members_add", "sub_org_append", "part_of_append",
-         "has_part_append", "member_of_assign", "members_assign"]
+         "has_part_append", "member_of_assign", "members_assign", "stamp_append"]
 
 
 def gen_survivor(rng):
@@ -64,7 +65,7 @@ def gen(rng, tier, ctx):
     rounds = [rng.randint(1, 20) for _ in range(rng.randint(1, 3))]
     prefix = []
     for n in rounds:
-        objs = [rng.choice(["Person", "Employee", "Manager", "Org", "Dept", "Chief"]) for _ in range(n)]
+        objs = [rng.choice(["Person", "Employee", "Manager", "Org", "Dept", "Chief", "Folder", "Stamp"]) for _ in range(n)]
         rels = [[rng.choice(KINDS), rng.randrange(100), rng.randrange(100)] for _ in range(rng.randint(0, n))]
         prefix.append({"create": objs, "relate": rels})
     names = []
@@ -74,6 +75,11 @@ def gen(rng, tier, ctx):
         names.append(["org", rng.choice(["Org", "Dept"]), f"o{i}"])
     for i in range(rng.randint(0, 2)):
         names.append(["chief", "Chief", f"c{i}"])
+    if rng.random() < 0.4:
+        # instances of a predicate: the graph wraps them only when a relation needs them
+        names.append(["folder", "Folder", "f0"])
+        for i in range(rng.randint(1, 3)):
+            names.append(["stamp", "Stamp", f"t{i}"])
     rng.shuffle(names)
     # a chief needs its person first
     suffix = [[rng.choice(KINDS), rng.randrange(100), rng.randrange(100), rng.randrange(100)] for _ in range(rng.randint(1, 10))]
@@ -81,28 +87,54 @@ def gen(rng, tier, ctx):
         # mirror: rustworkx hands freed node indices back last-in-first-out, so creating the same classes in reverse
         # order and asserting the same relations puts new instances on the node indices of dead related pairs
         last = prefix[-1]
-        names, cnt = [], {"person": 0, "org": 0, "chief": 0}
+        names, cnt = [], {"person": 0, "org": 0, "chief": 0, "folder": 0, "stamp": 0}
         for cn in reversed(last["create"]):
-            kind = "chief" if cn == "Chief" else ("org" if cn in ("Org", "Dept") else "person")
-            names.append([kind, cn, f"{kind[0]}{cnt[kind]}"])
+            kind = {"Chief": "chief", "Org": "org", "Dept": "org", "Folder": "folder", "Stamp": "stamp"}.get(cn, "person")
+            names.append([kind, cn, f"{'t' if kind == 'stamp' else kind[0]}{cnt[kind]}"])
             cnt[kind] += 1
         if not any(n[0] == "person" for n in names):
             names.append(["person", "Person", "p0"])
         if not any(n[0] == "org" for n in names):
             names.append(["org", "Org", "o0"])
         suffix = [[k, i, j, i + j] for k, i, j in last["relate"]][:12] or suffix
-    return {"prefix": prefix, "objects": names, "suffix": suffix, "sweep": rng.choice(["sweep", "sweep", "sweep", "nosweep", "late", "late", "mid", "query"])}
+    dead_copies = []
+    if rng.random() < 0.35:
+        # part of the history: shallow copies of the instances that are related later lived, were read and died
+        dead_copies = [[rng.choice(["org", "person"]), rng.randrange(10), rng.random() < 0.8] for _ in range(rng.randint(1, 3))]
+        # and the first assertions are made on those instances
+        suffix = [["members_assign" if kind == "org" else "member_of_assign", i, rng.randrange(100), rng.randrange(100)]
+                  for kind, i, _ in dead_copies if rng.random() < 0.8] + suffix
+    return {"prefix": prefix, "objects": names, "suffix": suffix, "dead_copies": dead_copies, "sweep": rng.choice(["sweep", "sweep", "sweep", "nosweep", "late", "late", "mid", "query"])}
 
 
 def witnesses():
     return {"dead-node-leaves-index-entries": {
         "prefix": [{"create": ["Org", "Person"], "relate": [["works_for", 0, 0]]}],
         "objects": [["person", "Person", "p0"], ["org", "Org", "o0"]],
-        "suffix": [["works_for", 0, 0, 0]], "sweep": "sweep"}}
+        "suffix": [["works_for", 0, 0, 0]], "sweep": "sweep"},
+        "unregistered-instance-gets-the-node-of-a-dead-one": {
+            "prefix": [{"create": ["Org", "Org", "Org"], "relate": []}],
+            "objects": [["folder", "Folder", "f0"], ["stamp", "Stamp", "t0"], ["stamp", "Stamp", "t1"], ["stamp", "Stamp", "t2"]],
+            "suffix": [["stamp_append", 0, 0, 0], ["stamp_append", 0, 1, 0], ["stamp_append", 0, 2, 0]], "dead_copies": [], "sweep": "nosweep"},
+        "assignment-after-a-dead-shallow-copy": {
+            "prefix": [{"create": ["Org", "Person"], "relate": [["works_for", 0, 0]]}],
+            "objects": [["person", "Person", "p0"], ["org", "Org", "o0"]],
+            "suffix": [["members_assign", 0, 0, 0]], "dead_copies": [["org", 0, True]], "sweep": "sweep"}}
 
 
-def apply_op(om, kind, persons, orgs, chiefs, i, j, k, used_single):
+def _raw_len(obj, field_name):
+    """the length of a managed field without a read access through the descriptor (which is an operation of its own:
+    it binds the container to the instance it is read from)"""
+    return len(vars(obj).get(getattr(type(obj), field_name).private_attr_name) or ())
+
+
+def apply_op(om, kind, persons, orgs, chiefs, i, j, k, used_single, folders=(), stamps=()):
     """returns True if an assertion was made"""
+    if kind == "stamp_append":
+        if not (folders and stamps):
+            return False
+        folders[i % len(folders)].stamps.append(stamps[j % len(stamps)])
+        return True
     if kind == "works_for" and persons and orgs:
         p = persons[i % len(persons)]
         if id(p) in used_single:
@@ -127,13 +159,13 @@ def apply_op(om, kind, persons, orgs, chiefs, i, j, k, used_single):
         orgs[i % len(orgs)].has_part.append(orgs[j % len(orgs)])
     elif kind == "member_of_assign" and persons and orgs:
         p = persons[i % len(persons)]
-        if len(p.member_of) or ("mo", id(p)) in used_single:
+        if _raw_len(p, "member_of") or ("mo", id(p)) in used_single:
             return False
         used_single.add(("mo", id(p)))
         p.member_of = [orgs[j % len(orgs)], orgs[k % len(orgs)]] if j % len(orgs) != k % len(orgs) else [orgs[j % len(orgs)]]
     elif kind == "members_assign" and persons and orgs:
         o = orgs[i % len(orgs)]
-        if len(o.members) or ("ms", id(o)) in used_single:
+        if _raw_len(o, "members") or ("ms", id(o)) in used_single:
             return False
         used_single.add(("ms", id(o)))
         o.members = {persons[j % len(persons)], persons[k % len(persons)]}
@@ -166,6 +198,9 @@ def observe(om, named, sg):
         elif isinstance(o, om.Chief):
             if o.head_of is not None:
                 fields.add((n, "head_of", name_of.get(id(o.head_of), "<foreign>")))
+        elif isinstance(o, om.Folder):
+            for x in o.stamps:
+                fields.add((n, "stamps", name_of.get(id(x), "<foreign>")))
     return rel, fields
 
 
@@ -228,15 +263,28 @@ def _prefix_round(om, rnd, C):
     persons = [o for o in objs if isinstance(o, om.Person)]
     orgs = [o for o in objs if isinstance(o, om.Org)]
     chiefs = [o for o in objs if isinstance(o, om.Chief)]
+    folders = [o for o in objs if isinstance(o, om.Folder)]
+    stamps = [o for o in objs if isinstance(o, om.Stamp)]
     used = set()
     related = 0
     for kind, i, j in rnd["relate"]:
         try:
-            if apply_op(om, kind, persons, orgs, chiefs, i, j, i + j, used):
+            if apply_op(om, kind, persons, orgs, chiefs, i, j, i + j, used, folders, stamps):
                 related += 1
         except Exception as e:
             C["prefix_op_raised:" + type(e).__name__] += 1
     return len(objs), related
+
+
+def _copy_read_drop(om, obj, read, C):
+    """a shallow copy is an instance of its own (it shares the containers of the managed fields until they are assigned);
+    it dies with this call"""
+    import copy
+    clone = copy.copy(obj)
+    if read:
+        for f in (("members", "sub_org_of", "part_of") if isinstance(obj, om.Org) else ("member_of",)):
+            len(getattr(clone, f))
+    C["dead_copies_of_live_instances"] += 1
 
 
 def run_suffix(spec, om, with_prefix, C, problems):
@@ -273,9 +321,20 @@ def run_suffix(spec, om, with_prefix, C, problems):
     persons = [o for n, o in sorted(named.items()) if isinstance(o, om.Person)]
     orgs = [o for n, o in sorted(named.items()) if isinstance(o, om.Org)]
     chiefs = [o for n, o in sorted(named.items()) if isinstance(o, om.Chief)]
+    folders = [o for n, o in sorted(named.items()) if isinstance(o, om.Folder)]
+    stamps = [o for n, o in sorted(named.items()) if isinstance(o, om.Stamp)]
     used = set()
     n_assert = 0
     errors = []
+    if with_prefix:
+        for kind, i, read in spec.get("dead_copies", ()):
+            pool = orgs if kind == "org" else persons
+            if pool:
+                _copy_read_drop(om, pool[i % len(pool)], read, C)
+        if spec.get("dead_copies"):
+            gc.collect()
+            if spec["sweep"] == "sweep":
+                SymbolGraph().remove_dead_instances()
     # the garbage of the prefix may also be swept only now: the new instances already exist and may have been given
     # the ids / node indices of dead ones ("late": before the assertions, "mid": between them, "query": by a query)
     if spec["sweep"] == "late":
@@ -289,8 +348,9 @@ def run_suffix(spec, om, with_prefix, C, problems):
             SymbolGraph().remove_dead_instances()
             C["mid_sweeps"] += 1
         try:
-            if apply_op(om, kind, persons, orgs, chiefs, i, j, k, used):
+            if apply_op(om, kind, persons, orgs, chiefs, i, j, k, used, folders, stamps):
                 n_assert += 1
+                C["suffix:" + kind] += 1
         except Exception as e:
             errors.append(f"{kind}: {type(e).__name__}: {e}"[:160])
     rel, fields = observe(om, named, SymbolGraph())
